@@ -282,6 +282,63 @@ def fold(t):
 
 
 # --------------------------------------------------------------------------------------
+# branch correlation: the same pure test of the same dynamic values gives the same answer
+# --------------------------------------------------------------------------------------
+
+import re as _re
+
+PURE = _re.compile(
+    r"(slice::<impl \[T\]>::(is_empty|len|starts_with|ends_with|contains|first|last)|Option::<T>::(is_none|is_some)|"
+    r"Result::<T, E>::(is_ok|is_err)|Vec::<T, A>::(len|is_empty)|str::<impl str>::(len|is_empty|starts_with)|"
+    r"bitflags.*::contains|::contains)$")
+
+
+def memo_key(body, blocks, t, depth=0):
+    """Canonical identity of a term that denotes the same dynamic value wherever it is
+    re-evaluated on this path, or None when that cannot be established (memory loads, call
+    sites visited twice)."""
+    if depth > 30 or not isinstance(t, tuple):
+        return None
+    k = t[0]
+    if k == "const":
+        return t
+    if k == "param":
+        ty = body.local_ty(t[1])
+        if ty.startswith("&") or ty.startswith("*"):
+            return None
+        return ("param", t[1])
+    if k == "call":
+        if PURE.search(t[1]):
+            ks = tuple(memo_key(body, blocks, a, depth + 1) for a in t[2])
+            if any(x is None for x in ks):
+                return None
+            return ("pure", t[1], ks)
+        site = t[3][1] if len(t) > 3 and isinstance(t[3], tuple) else None
+        if site is None or blocks.count(site) != 1:
+            return None
+        return ("site", t[1], site)
+    if k in ("field", "variant"):
+        c = memo_key(body, blocks, t[1], depth + 1)
+        return None if c is None else (k, c, t[2])
+    if k in ("okpayload", "somepayload", "errpayload", "errresidual", "discr"):
+        c = memo_key(body, blocks, t[1], depth + 1)
+        return None if c is None else (k, c)
+    if k == "cast":
+        c = memo_key(body, blocks, t[1], depth + 1)
+        return None if c is None else (k, c, t[2])
+    if k == "bin":
+        a, b = memo_key(body, blocks, t[2], depth + 1), memo_key(body, blocks, t[3], depth + 1)
+        return None if a is None or b is None else (k, t[1], a, b)
+    if k == "un":
+        a = memo_key(body, blocks, t[2], depth + 1)
+        return None if a is None else (k, t[1], a)
+    if k == "index":
+        a, b = memo_key(body, blocks, t[1], depth + 1), memo_key(body, blocks, t[2], depth + 1)
+        return None if a is None or b is None else (k, a, b)
+    return None
+
+
+# --------------------------------------------------------------------------------------
 # enumeration
 # --------------------------------------------------------------------------------------
 
@@ -300,6 +357,7 @@ def enumerate_paths(body, start=0, stop_at=(), max_visits=2, limit=50000, prune=
     out = []
     blocks = [start]
     counts = {start: 1}
+    decisions = []   # (key, ("val", v) | ("not", frozenset(vals)))
 
     def rec():
         if len(out) > limit:
@@ -320,6 +378,7 @@ def enumerate_paths(body, start=0, stop_at=(), max_visits=2, limit=50000, prune=
             out.append(Path(body, list(blocks), "unreachable"))
             return
         succs = body.succ[b]
+        mk = None
         if k == "switch" and prune:
             p = Path(body, blocks)
             v = p.origin_op(t["discr"], len(blocks) - 1, None)
@@ -331,6 +390,22 @@ def enumerate_paths(body, start=0, stop_at=(), max_visits=2, limit=50000, prune=
                         tgt = g
                         break
                 succs = [tgt] if not body.is_cleanup(tgt) else []
+            else:
+                mk = memo_key(body, blocks, v)
+                if mk is not None:
+                    for (k0, d0) in decisions:
+                        if k0 != mk:
+                            continue
+                        if d0[0] == "val":
+                            tgt = t["otherwise"]
+                            for val, g in zip(t["vals"], t["tgts"]):
+                                if int(val) == d0[1]:
+                                    tgt = g
+                            succs = [x for x in succs if x == tgt]
+                        else:
+                            banned = {g for val, g in zip(t["vals"], t["tgts"]) if int(val) in d0[1]}
+                            allowed = {g for val, g in zip(t["vals"], t["tgts"]) if int(val) not in d0[1]} | {t["otherwise"]}
+                            succs = [x for x in succs if x in allowed or x not in banned]
         if not succs:
             out.append(Path(body, list(blocks), "diverge"))
             return
@@ -341,9 +416,20 @@ def enumerate_paths(body, start=0, stop_at=(), max_visits=2, limit=50000, prune=
                 out.append(Path(body, list(blocks), "cut:%d" % s))
                 continue
             counts[s] = counts.get(s, 0) + 1
+            pushed = False
+            if mk is not None:
+                vals_here = [int(val) for val, g in zip(t["vals"], t["tgts"]) if g == s]
+                if s != t["otherwise"] and len(vals_here) == 1:
+                    decisions.append((mk, ("val", vals_here[0])))
+                    pushed = True
+                elif s == t["otherwise"] and not vals_here:
+                    decisions.append((mk, ("not", frozenset(int(val) for val in t["vals"]))))
+                    pushed = True
             blocks.append(s)
             rec()
             blocks.pop()
+            if pushed:
+                decisions.pop()
             counts[s] -= 1
 
     import sys
